@@ -32,6 +32,7 @@ CONSTANTS
   Sizes,      \* payload size classes (bytes)
   AadSizes,   \* additional authenticated data sizes, 0 = no aad
   Deviation   \* "none" | "aad-not-authenticated" | "reserialised-header" | "inflate-skipped"
+              \* | "open-consumes-object" | "shared-entry-header" (histories and several parties: JoseHist.tla)
 
 VARIABLES pc, obj, form, wire, tampered, kc, result
 vars == <<pc, obj, form, wire, tampered, kc, result>>
@@ -103,7 +104,8 @@ ASSUME /\ Cardinality(AllSigAlgs) = 12 /\ Cardinality(AllKmAlgs) = 14 /\ Cardina
        /\ Zips \subseteq AllZips /\ Forms \subseteq {"compact", "json"}
        /\ \A a \in AllSigAlgs : \E k \in KeyKinds : SigApplicable(a, k)
        /\ \A a \in AllKmAlgs, e \in AllEncs : \E k \in KeyKinds : KmApplicable(a, e, k)
-       /\ Deviation \in {"none", "aad-not-authenticated", "reserialised-header", "inflate-skipped"}
+       /\ Deviation \in {"none", "aad-not-authenticated", "reserialised-header", "inflate-skipped",
+                         "open-consumes-object", "shared-entry-header"}   \* the last two: JoseHist.tla
 
 \* ------------------------------------------------------------------ objects
 \* What the application asks for.  profile "acme" = the way /repo/https/acme signs a request:
